@@ -37,11 +37,15 @@ Ltac split_string_tests :=
          | |- context [String.eqb ?a ?b] => destruct (String.eqb_spec a b); try congruence
          end.
 
+(* a conditional between booleans as a formula (lia does not look under an `if` whose test is compound) *)
+Lemma if_bool : forall b x y : bool, (if b then x else y) = (b && x || negb b && y).
+Proof. intros [|] x y; simpl; [rewrite orb_false_r|]; reflexivity. Qed.
+
 Ltac rule_agree :=
   cbv beta;
   unfold auto_discover_min_max, valid_taint_effect, valid_aws_lifecycle, valid_max_node_age, taint_effect_types;
   cbn [str_map_get];
-  rewrite ?eqb_empty_slen, ?eqb_empty_slen';
+  rewrite ?if_bool, ?eqb_empty_slen, ?eqb_empty_slen';
   slen_facts; split_string_tests; intros;
   first [ reflexivity | congruence | lia ].
 
